@@ -58,7 +58,7 @@ static bool run_one(Run &R, const Bytes &a, int mask) { auto f = check_one(R, a,
 static void stage_bounded(Run &R) {
     static const char AL[] = {'a', '1', '.', '-', '@', '[', ']', ':', ' ', '(', 0x01, '_'};
     const int K = sizeof AL;
-    int maxlen = R.a.thorough ? 6 : 5;
+    int maxlen = R.a.thorough ? 7 : 5;
     uint64_t total = 0, idx = 0; int dm = K_->default_mask();
     std::vector<int> d(maxlen, 0);
     for (int len = 1; len <= maxlen; len++) {
